@@ -183,6 +183,8 @@ def store_check(prop, model_cfgs, gen_cfgs, quick_n, thorough_n, kinds_note, inv
             if extra_behaviours:
                 behs += extra_behaviours(rng, thorough)
             fx = [b for k in sorted(set(b["kind"] for b in behs)) for b in fixture_behaviours(k, rng)]
+            if prop != "C04":     # reorgs belong to C04 (and bring its known finding F10 with them)
+                fx = [b for b in fx if not any(o["op"] == "reorg" for o in b["ops"])]
             behs = reg + fx + behs
         else:
             behs = rb
